@@ -58,6 +58,10 @@ def run_case(case):
         if not limit:
             return {"verdict": VIOLATED, "sig": "well-formed module rejected by the second-generation front end: %s at stage %s (%s)"
                     % (codes, stage, case.get("shape", "?")), "detail": (r.get("errors") or [])[:3], "replay": replay, "cov": cov}
+    if expect == "reject_390" and (stage == "done" or 390 not in codes):
+        return {"verdict": VIOLATED, "sig": "reference beyond the documented limit of 127 is %s (%s)" %
+                ("accepted" if stage == "done" else "rejected with %s only" % codes, case["kind"]),
+                "detail": case.get("meta"), "replay": replay, "cov": cov}
     if expect == "reject_lex" and stage != "lex":
         return {"verdict": VIOLATED, "sig": "input with an invalid lexeme is not rejected by the lexer (stage %s)" % stage,
                 "detail": case.get("meta"), "replay": replay, "cov": cov}
@@ -93,6 +97,8 @@ def density_shapes(n):
         "reference_steps": "fn main()\n{\n\tvar y = x" + ".a[0]" * (n // 2) + ";\n}\n",
         "amp_chain": "fn main()\n{\n\tvar y = " + "&" * n + "x;\n}\n",
         "strings": "fn main()\n{\n\tvar y = " + " ".join('"s"' for _ in range(n)) + ";\n}\n",
+        "literals": "const T: [%d]i32 = [%s];\n" % (n, ", ".join(("%d" % (k % 10), "'a'", "true", "0x1Fu8")[k % 4] for k in range(n))),
+        "literal_statements": "fn main()\n{\n\tvar x = 0;\n" + "\tx = x + 1;\n" * n + "}\n",
     }
 
 
@@ -153,6 +159,22 @@ def cases(tier, seed):
             limited = shape in ("amp_chain", "reference_steps") and n > 120
             yield {"kind": "density:" + shape, "build": "rel" if n > 200 else "chk", "data": text, "meta": {"n": n},
                    "expect": None if limited else "accept", "shape": shape + ("" if n <= 200 else ":large")}
+    # literal-dense modules well under 64 KiB (the payload table of the lexer is pre-sized from the source length)
+    for n in ([1100, 3000] if quick else [1023, 1024, 1025, 1100, 2000, 3000, 6000]):
+        for shape in ("literals", "literal_statements", "dense_ops"):
+            text = density_shapes(n)[shape]
+            if len(text) < 65536:
+                yield {"kind": "density:" + shape, "build": "rel", "data": text, "meta": {"n": n}, "expect": "accept",
+                       "shape": shape + ":literal-dense"}
+    # the documented limit of 127 address markers / access steps per reference (E390), on both sides of every wrap-around
+    # of a narrow counter
+    for n in (1, 126, 127, 128, 129, 200, 254, 255, 256, 257, 300, 383, 384, 511, 512, 513, 1000, 1024, 4096):
+        for shape in ("amp_chain", "reference_steps"):
+            units = n
+            text = density_shapes(units)[shape]
+            for build in ("chk", "rel"):
+                yield {"kind": "limit:" + shape, "build": build, "data": text, "meta": {"n": n},
+                       "expect": "accept" if n <= 127 else "reject_390", "shape": "%s:%d" % (shape, n)}
     # generated well-formed modules of every statement / expression density must be accepted
     from . import gen_syntax
     for i in range(300 if quick else 20000):
